@@ -31,7 +31,7 @@ CFG = dict(
 )
 
 def classify(line):
-    tags = line.get("tags", [])
+    tags = line.get("tags") or []
     if "reserved-key" in tags:
         return "calico-reserved-label-key"
     if "types:absent-with-egress" in tags:
